@@ -160,8 +160,9 @@ def a1_case(rng, nops, trec):
     maxs = rng.choice([8, 20, 1000])
     ns = rng.choice([0.3, 0.5, 1.0])
     dist = rng.choice(["dyadic", "normal", "wide"])
+    alpha = rng.choice([0.005, 0.005, 0.05, 0.2])  # several confidence levels within one process
     l = adaptive.AverageLearner1D(lambda sx: 0.0, bounds=(-1.0, 1.0), min_samples=mins, max_samples=maxs,
-                                  neighbor_sampling=ns)
+                                  neighbor_sampling=ns, alpha=alpha)
     lines = [f"a1 new {mins} {maxs} {fb(ns)}"]
     outs = ["ok " + a1_obs(l)]
     fails = []
